@@ -33,7 +33,7 @@ rm -f "$demo"
 echo "== suite on patched tree" >> "$log"
 out=$(cd "$wt" && timeout 1500 go test -vet=off -count=1 ./... 2>&1); echo "$out" | grep -v '^ok\|no test files' >> "$log"
 fails=$(echo "$out" | grep -- '^--- FAIL' | grep -v 'TestStore_Dir_OverwriteSymlink_RemovalFailed' | head -5)
-pkgfail=$(echo "$out" | grep '^FAIL' | grep -v 'content/file' | head -5)
+pkgfail=$(echo "$out" | grep -P '^FAIL\t' | grep -v 'content/file' | head -5)
 if [ -n "$fails" -o -n "$pkgfail" ]; then echo "REJECTED: existing suite fails with the change: $fails $pkgfail"; exit 1; fi
 # content/file may FAIL only because of the known baseline failure
 if echo "$out" | grep -q '^FAIL.*content/file'; then
